@@ -190,6 +190,49 @@ var dictProof = &core.Check{Name: "c18/dict", Quick: 1200, Thorough: 100000, Fn:
 		c.NonTrivial(root.ReprHash(), e.Key.String())
 	}
 	c.Class(fmt.Sprintf("pruned subtrees: %d", min(npruned, 6)))
+	// one prover used for a sequence of requests: a present key, an absent key (the walk is abandoned with
+	// an error), another present key. Every returned proof must stand on its own.
+	if len(entries) >= 2 {
+		cellS, proverS, err := load()
+		if err != nil {
+			return err
+		}
+		e2 := entries[c.Choose("pick2", len(entries))]
+		absent := e.Key.Clone()
+		absent[c.Choose("absent.flip", n)] = !absent[c.Choose("absent.flip2", n)]
+		isPresent := false
+		for _, x := range entries {
+			isPresent = isPresent || x.Key.Equal(absent)
+		}
+		steps := []ref.DictEntry{e, {Key: absent}, e2}
+		for si, st := range steps {
+			if si == 1 && isPresent {
+				continue
+			}
+			cellS.ResetCounters()
+			v, pr, perr := tlb.ProveKeyInHashmap[tlb.Uint32](proverS, cellS, gen.BitString(st.Key))
+			if si == 1 {
+				if perr == nil {
+					return fmt.Errorf("reused prover: a proof was produced for the absent key %s", st.Key)
+				}
+				continue
+			}
+			if perr != nil {
+				return fmt.Errorf("reused prover, request %d (key %s): %v", si+1, st.Key, perr)
+			}
+			if uint64(v) != st.Value.Bits.Uint(0, 32) {
+				return fmt.Errorf("reused prover, request %d: value %d for key %s, the dictionary holds %d", si+1, v, st.Key, st.Value.Bits.Uint(0, 32))
+			}
+			mp2, _, verr := validateProof(pr, root)
+			if verr != nil {
+				return fmt.Errorf("reused prover, request %d (key %s): %v", si+1, st.Key, verr)
+			}
+			if got, ok := lookupInPruned(mp2.Refs[0], st.Key); !ok || !got.Equal(st.Value.Bits) {
+				return fmt.Errorf("reused prover, request %d: key %s cannot be read from its proof (an earlier request on the same prover proved %s, then the absent key %s was asked for)", si+1, st.Key, e.Key, absent)
+			}
+		}
+		c.Class("prover reused for present/absent/present")
+	}
 	// absent keys: flip the first, a middle and the last bit of a present key
 	for _, pos := range []int{0, n / 2, n - 1} {
 		k := e.Key.Clone()
@@ -398,6 +441,58 @@ var cursorProof = &core.Check{Name: "c18/cursor", Quick: 1500, Thorough: 120000,
 	_, n, err := validateProof(proof, root)
 	if err != nil {
 		return fmt.Errorf("proof with %d pruned paths: %v", pruned, err)
+	}
+	// a proof can be narrowed further: the pruned tree of the first proof is the source of a second prover,
+	// positions are pruned in it (possibly positions that already are pruned branches), and the second
+	// proof must still commit to the ORIGINAL root
+	if c.Bool("narrow") {
+		first, perr := boc.DeserializeBoc(proof)
+		if perr != nil {
+			return perr
+		}
+		body, berr := first[0].NextRef()
+		if berr != nil {
+			return berr
+		}
+		rrFirst, _ := ref.ParseBOC(proof)
+		bodyRef := rrFirst[0].Refs[0]
+		prover2, perr := boc.NewMerkleProver(body)
+		if perr != nil {
+			return fmt.Errorf("NewMerkleProver on the pruned tree of a proof: %v", perr)
+		}
+		cur2 := prover2.Cursor()
+		pr2 := 0
+		for i, np2 := 0, 1+c.Intn("narrow.n", 3); i < np2; i++ {
+			x, rx := cur2, bodyRef
+			steps := 0
+			for d := c.Intn("narrow.len", 6); d >= 0 && len(rx.Refs) > 0; d-- {
+				k := c.Intn("narrow.ref", len(rx.Refs))
+				x, rx = x.Ref(k), rx.Refs[k]
+				steps++
+			}
+			if steps > 0 {
+				x.Prune()
+				pr2++
+				if rx.Special {
+					c.Class("pruned a position that already was a pruned branch")
+				}
+			}
+		}
+		proof2, perr := prover2.CreateProof(cur2)
+		if perr != nil {
+			return fmt.Errorf("CreateProof on a narrowed proof: %v", perr)
+		}
+		rr2, perr := ref.ParseBOC(proof2)
+		if perr != nil || len(rr2) != 1 || rr2[0].Type() != ref.TypeMerkleProof || rr2[0].WellFormed() != nil {
+			return fmt.Errorf("narrowed proof is not a well-formed Merkle proof (%v)", perr)
+		}
+		if !bytes.Equal(rr2[0].Refs[0].Hash(0), root.ReprHash()) {
+			return fmt.Errorf("narrowed proof (%d more positions pruned): its tree hashes at level 0 to %x, the original root hashes to %x", pr2, rr2[0].Refs[0].Hash(0), root.ReprHash())
+		}
+		if !bytes.Equal(rr2[0].Data[1:33], root.ReprHash()) {
+			return fmt.Errorf("narrowed proof stores root hash %x, the original root hashes to %x", rr2[0].Data[1:33], root.ReprHash())
+		}
+		c.Class("narrowed proof")
 	}
 	if pruned > 0 && n == 0 {
 		return fmt.Errorf("%d cursors were pruned but the proof contains no pruned branch", pruned)
